@@ -626,6 +626,9 @@ func (sel *Selection) Set(v val.Value) error {
 	if !meta.IsLeaf(sel.Path.Meta) {
 		return fmt.Errorf("%s is not a leaf", sel.Path.Meta.Ident())
 	}
+	if v == nil {
+		return fmt.Errorf("%w. no value given for %s", fc.BadRequestError, sel.Path.Meta.Ident())
+	}
 	m := sel.Path.Meta.(meta.Leafable)
 	r := FieldRequest{
 		Request: Request{
